@@ -17,8 +17,8 @@ def run(cx):
     cx.rule("C15.R1", "idle timeout: the Timeout error is returned only when the countdown is used up AND no connection is being served; the countdown (idle_timeout*1000 ms) is restarted after every accepted connection and whenever workers are busy at the deadline, and is decreased by exactly the poll quantum otherwise")
     cx.rule("C15.R2", "stop flag: with a flag configured the poll quantum is a constant in (0, 1000] ms, every timed-out poll loads the flag, and a set flag returns Ok(())")
     cx.rule("C15.R3", "drain before return: on every return after the pool exists the pool is dropped (workers joined) before the listener; ThreadPool::drop sends one Terminate per worker on the job channel and then joins every worker")
-    cx.rule("C15.R4", "unlink what was bound: listeners created by bind carry the `false` tag, activated ones `true`, and Listener::drop removes the socket file exactly for (UNIX, false)")
-    cx.rule("C15.R5", "accept() waits for the requested number of milliseconds: tv_sec = ms / 1000 and tv_usec = (ms % 1000) * 1000, and a select() timeout is reported as ErrorKind::Timeout")
+    cx.rule("C15.R4", "unlink what was bound: listeners created by bind carry the `false` tag, activated ones `true`, and Listener::drop removes the socket file exactly for (UNIX, false); nothing but drop takes the socket out of a Listener (drop needs it to find the path)")
+    cx.rule("C15.R5", "accept() waits for the requested number of milliseconds: tv_sec = ms / 1000 and tv_usec = (ms % 1000) * 1000, a select() timeout is reported as ErrorKind::Timeout, and Timeout is built only behind the `descriptor not readable after select()` edge (listen() charges one poll interval per Timeout)")
     r1_r2(cx); r3(cx); r4(cx); r5(cx)
 
 
@@ -235,6 +235,31 @@ def r4(cx):
         if not got_false: why.append("remove_file is not confined to listeners tagged `false` (a socket handed over by activation would be unlinked, or a bound one left behind)")
         # and the (UNIX,false) arm always gets there when the path is known
     cx.check(not why, "C15.R4", "varlink:Listener::drop:unlink-iff-bound", dr.sp, "; ".join(why), note_ok="remove_file only for (UNIX, false)")
+    # drop can only unlink while the listener still holds its socket: nothing but drop itself empties the inner Option
+    import re as _re
+    def is_listener_ty(t): return bool(_re.search(r"(^|[^A-Za-z0-9_])Listener\b", t)) and "server::Listener" in t or bool(_re.fullmatch(r"(&(mut )?)?(server::)?Listener", t.strip()))
+    nm = 0
+    for b in cx.mir.bodies("varlink"):
+        if b.promoted is not None: continue
+        bdu = None
+        hits = []
+        for t in b.calls("=take", "=replace", "=insert", "=get_or_insert_with", "=take_if"):
+            if "Option" not in t.callee.path and "mem::" not in t.callee.path: continue
+            if not t.args or t.args[0].place is None: continue
+            bdu = bdu or DefUse(b)
+            for l in ref_chain(bdu, t.args[0].place.l):
+                for k, d in bdu.defs.get(l, []):
+                    if k == "stmt" and d.kind == "assign" and d.rplace is not None and any(e.startswith("as UNIX") or e.startswith("as TCP") for e in d.rplace.p) and d.rplace.fields()[-1:] == ["0"]:
+                        hits.append(t.sp)
+        for st in b.stmts():
+            if st.kind == "assign" and st.lhs.p and any(e.startswith("as UNIX") or e.startswith("as TCP") for e in st.lhs.p) and st.lhs.fields()[-1:] == ["0"]: hits.append(st.sp)
+            if st.kind == "assign" and st.lhs.p == ["*"] and st.rv == "agg" and isinstance(st.agg, dict) and st.agg.get("adt", "").endswith("server::Listener"): hits.append(st.sp)
+        if not hits: continue
+        nm += 1; cx.saw(b)
+        cx.check(b.path == dr.path, "C15.R4", "varlink:%s:empties-listener" % b.path, "%s %s" % (hits[0], b.path),
+                 "%s takes the socket out of a Listener before it is dropped: Listener::drop finds (UNIX, None) and leaves the socket file in place" % b.path,
+                 note_ok="only drop() takes the socket out (activated listeners)")
+    cx.floor("C15.R4", "functions emptying a Listener", nm, 1)
 
 
 def r5(cx):
@@ -266,4 +291,18 @@ def r5(cx):
         if not ok_usec: why.append("tv_usec is computed as %s (expected (ms %% 1000) * 1000 microseconds)" % usec[:3])
     to = [s for s in ac.stmts() if s.kind == "assign" and s.rv == "agg" and isinstance(s.agg, dict) and s.agg.get("variant") == "Timeout"]
     if not to: why.append("a select() timeout is not reported as ErrorKind::Timeout")
+    # Timeout means: select() came back with the descriptor not readable. listen() charges a whole poll interval for every Timeout it gets.
+    cfg = Cfg(ac)
+    isset = ac.calls("=FD_ISSET")
+    if len(isset) != 1 or isset[0].target is None: why.append("%d FD_ISSET tests after select()" % len(isset))
+    else:
+        sw = ac.blocks[isset[0].target].term
+        not_set = None
+        if sw.kind == "switch":
+            c = switch_cond(ac, du, sw)
+            te, fe = bool_edges(sw, c)
+            not_set = fe
+        for st in to:
+            if not_set is None or not cfg.edge_dominates(not_set, st.bb):
+                why.append("ErrorKind::Timeout is also built at %s, not behind the `descriptor not readable after select()` edge: a caller that charges one poll interval per Timeout then times out early (e.g. after a signal)" % st.sp)
     cx.check(not why, "C15.R5", "varlink:Listener::accept:timeval-units", ac.sp, "; ".join(why), note_ok="tv_sec = ms/1000, tv_usec = (ms%1000)*1000; !FD_ISSET -> Err(Timeout)")
